@@ -2,9 +2,9 @@ package vc
 
 import (
 	"fmt"
+	"go/types"
 	"os"
 	"runtime/debug"
-	"go/types"
 	"strings"
 
 	"golang.org/x/tools/go/ssa"
